@@ -102,6 +102,7 @@ type Conn struct {
 	NReads    int
 	NWrites   int
 	ReadSizes []int
+	ReadCaps  []int // len(p) of the same Read calls
 	Peer      *Conn
 	// CoalesceEnd: a Read that drains the buffer of an ended stream returns
 	// the final bytes together with the EOF/error (n > 0 and err != nil), as
@@ -235,6 +236,7 @@ func (c *Conn) Read(p []byte) (int, error) {
 	c.In.Buf = c.In.Buf[n:]
 	c.In.Read += int64(n)
 	c.ReadSizes = append(c.ReadSizes, n)
+	c.ReadCaps = append(c.ReadCaps, len(p))
 	if s.C.Logging() {
 		s.C.Logf("  %s: read %d of %d available (offset now %d)", c.Name, n, avail, c.In.Read)
 	}
